@@ -37,7 +37,15 @@ CLAIM = dict(
           "two's-complement reading. Tied to rig/type_casts.py on every run by exact correspondence of all six "
           "converters on tens of thousands of generated values x formats (boundaries +-ulps, far beyond, subnormal, "
           "negative; widths 1-1100; scalars and float64 / float32 / float16 arrays of several shapes) with the Lean "
-          "rule evaluated on every output."),
+          "rule evaluated on every output. The model is a pure function of the supplied values; that the code is too - "
+          "independence from call history and from aliasing of the input - is covered by streams: after EVERY array "
+          "conversion the caller's input (values, dtype, shape, strides, writeable flag, underlying buffer of a view) is "
+          "compared with a deep snapshot taken before (violation array-input-modified), and ONE input object "
+          "(C-contiguous, 2-D, Fortran-order, strided / reversed views, 0-d, read-only, float32 / float16, list) is "
+          "converted by 2-4 NumpyFloatToFixConverters in a row (n_frac 0 and not, all widths, signed / unsigned, narrow "
+          "range first) and each result array by 1-2 NumpyFixToFloatConverters in a row, every result compared with "
+          "the Lean rule / the scalar converter on the ORIGINAL values (array-ne-scalar-sequence); read-only inputs "
+          "must convert without error (array-readonly-rejected)."),
     design="3/C16",
     note=("Doubles are modelled as (m, e) pairs. PROVED inside the model (no longer trusted): the model's int -> "
           "double conversion is round-to-nearest-even to 53 bits, monotone, idempotent, exact up to 2^53 and for every "
@@ -77,9 +85,13 @@ RULE = ("one case = one format (signed, n_bits, n_frac) with 6-24 doubles built 
         "(a,b), 0-d, python scalar, strided view; narrow cases: float32 / float16 arrays (values rounded to the dtype, its "
         "largest / least values, scaled values around the dtype's overflow threshold) with n_frac around the points "
         "where 2.0**n_frac overflows / underflows the dtype; inverse cases: integers at the ends, +-1, 53/54/63/64-bit "
-        "patterns. "
+        "patterns; sequence cases: one input object (14 container kinds incl. read-only, views, float32/16, list) "
+        "through 2-4 array converters in a row (first one n_frac = 0 in 70%, often sorted narrow range first; values "
+        "around every step's range and far outside the narrowest) and 0-2 NumpyFixToFloatConverters on each result; "
+        "every array-taking call is bracketed by a deep snapshot of its input. "
         "A case is non-trivial when it contains both a saturating value and an in-range value whose scaled value has a "
-        "fractional part (conversion and narrow cases) or an in-range integer of more than 24 bits (inverse cases); distinct = "
+        "fractional part (conversion and narrow cases), an in-range integer of more than 24 bits (inverse cases), or a value "
+        "that saturates in an earlier step and not in a later one (sequence cases); distinct = "
         "distinct canonical JSON")
 
 NP_BITS = (8, 16, 32, 64)
@@ -253,7 +265,7 @@ def gen_conv_case(rng, fmt=None):
     fmt = fmt or gen_fmt(rng)
     n = rng.choice([6, 8, 12, 12, 16, 24])
     vs = [to_dy(x) for x in gen_values(rng, fmt, n)]
-    return {"kind": "conv", "fmt": fmt, "vs": vs, "shape": rng.randrange(7)}
+    return {"kind": "conv", "fmt": fmt, "vs": vs, "shape": rng.randrange(8)}
 
 
 def boundary_case(fmt):
@@ -299,7 +311,7 @@ def gen_ints(rng, fmt, n):
 
 def gen_inv_case(rng):
     fmt = gen_fmt(rng, extreme_ok=rng.random() < 0.3)
-    return {"kind": "inv", "fmt": fmt, "ks": gen_ints(rng, fmt, rng.choice([6, 10, 16])), "shape": rng.randrange(5)}
+    return {"kind": "inv", "fmt": fmt, "ks": gen_ints(rng, fmt, rng.choice([6, 10, 16])), "shape": rng.choice([0, 1, 2, 3, 4, 7])}
 
 
 # ---------------------------------------------------------------- float32 / float16 input arrays
@@ -357,7 +369,7 @@ def gen_narrow_case(rng):
         if x is None:
             continue
         xs.append(x)
-    return {"kind": "narrow", "prec": prec, "fmt": fmt, "vs": [to_dy(x) for x in xs], "shape": rng.randrange(7)}
+    return {"kind": "narrow", "prec": prec, "fmt": fmt, "vs": [to_dy(x) for x in xs], "shape": rng.randrange(8)}
 
 
 def finite_in_dtype(p, frac, prec):
@@ -389,7 +401,7 @@ def impl_narrow(case):
         if "err" in mk:
             out["np"] = [mk] * len(xs)
         else:
-            r = call(mk["ok"], arr)
+            r = call_keep(out, "NumpyFloatToFixConverter", mk["ok"], arr)
             if "err" in r:
                 out["np"] = [r] * len(xs)
             else:
@@ -401,10 +413,48 @@ def impl_narrow(case):
 
 
 # ---------------------------------------------------------------- implementation side
+def snap(obj):
+    """deep snapshot of a caller-side input (ndarray or list) taken before a conversion"""
+    if isinstance(obj, list):
+        return {"list": [(type(x).__name__, repr(x)) for x in obj]}
+    base = obj.base if hasattr(obj.base, "tobytes") else None
+    return {"bytes": obj.tobytes(), "dtype": str(obj.dtype), "shape": tuple(obj.shape), "strides": tuple(obj.strides),
+            "writeable": bool(obj.flags.writeable), "values": obj.copy(),
+            "base": None if base is None else base.tobytes()}
+
+
+def snap_diff(obj, before):
+    """None when the input object is exactly as it was, else a description of what changed"""
+    now = snap(obj)
+    if "list" in before:
+        return None if now == before else "the list %r became %r" % (before["list"], now["list"])
+    for k in ("dtype", "shape", "strides", "writeable"):
+        if now[k] != before[k]:
+            return "%s changed from %r to %r" % (k, before[k], now[k])
+    if now["bytes"] != before["bytes"]:
+        return "values %r became %r" % (before["values"].reshape(-1).tolist(), now["values"].reshape(-1).tolist())
+    if now["base"] != before["base"]:
+        return "elements of the underlying buffer outside the view changed"
+    return None
+
+
+def call_keep(out, what, f, obj):
+    """call f(obj) and record in out['input_modified'] when the caller's object was changed by the call"""
+    before = snap(obj)
+    r = call(f, obj)
+    d = snap_diff(obj, before)
+    if d is not None and "input_modified" not in out:
+        out["input_modified"] = "%s: %s" % (what, d)
+    return r
+
+
 def shape_array(np, xs, shape, dtype):
     """the same elements presented in one of several shapes; returns (object, flatten)"""
     n = len(xs)
     a = np.array(xs, dtype=dtype)
+    if shape == 7:
+        a.flags.writeable = False           # a read-only array must convert like any other
+        return a
     if shape == 1:
         return a.reshape(n, 1)
     if shape == 2:
@@ -460,7 +510,7 @@ def impl_conv(case):
         else:
             conv = mk["ok"]
             arr = shape_array(np, xs, case["shape"], np.float64)
-            r = call(conv, arr)
+            r = call_keep(out, "NumpyFloatToFixConverter", conv, arr)
             if "err" in r:
                 out["np"] = [r] * len(xs)
             else:
@@ -473,7 +523,7 @@ def impl_conv(case):
             # scalar / 0-d presentations of the first element
             r0 = call(conv, xs[0])
             out["np_scalar"] = {"ok": int(np.asarray(r0["ok"]).reshape(-1)[0])} if "ok" in r0 else r0
-            r0 = call(conv, np.array(xs[0]))
+            r0 = call_keep(out, "NumpyFloatToFixConverter (0-d array)", conv, np.array(xs[0]))
             out["np_0d"] = {"ok": int(np.asarray(r0["ok"]).reshape(-1)[0])} if "ok" in r0 else r0
     return out
 
@@ -513,7 +563,7 @@ def impl_inv(case):
         if b in NP_BITS and sel:
             kk = [ks[i] for i in sel]
             arr = shape_array(np, kk, case["shape"], getattr(np, NP_DTYPE[(s, b)]))
-            r = call(tc.NumpyFixToFloatConverter(f), arr)
+            r = call_keep(out, "NumpyFixToFloatConverter", tc.NumpyFixToFloatConverter(f), arr)
             if "err" in r:
                 out["np_to_float"] = [r] * len(kk)
             else:
@@ -523,7 +573,7 @@ def impl_inv(case):
                 if all(math.isfinite(v) for v in res.reshape(-1).tolist()):
                     mk2 = call(tc.NumpyFloatToFixConverter, s, b, f)
                     if "ok" in mk2:
-                        r2 = call(mk2["ok"], res)
+                        r2 = call_keep(out, "NumpyFloatToFixConverter", mk2["ok"], res)
                         out["np_back"] = ([{"ok": int(v)} for v in r2["ok"].reshape(-1).tolist()]
                                           if "ok" in r2 else [r2] * len(kk))
     return out
@@ -647,6 +697,9 @@ def judge_conv(ctx, c):
                     ctx.violation("monotone", "%s %s is not monotone on %r" % (
                         names[name], describe(fmt), [from_dy(vs[i]) for i in ids]), sub_case(c, ids))
                     break
+    if impl.get("input_modified"):
+        ctx.violation("array-input-modified", "%s %s changed the caller's input array: %s" % (
+            "array converter", describe(fmt), impl["input_modified"]), desc)
     # shape / dtype / scalar presentations of the array converter
     if impl.get("np_meta") is False:
         ctx.violation("array-shape-dtype", "NumpyFloatToFixConverter %s returned dtype %s / a different shape" % (
@@ -754,6 +807,9 @@ def judge_inv(ctx, c):
                                   describe(fmt), k % 2 ** fmt["bits"], d["ok"], fmt["frac"], k, a["ok"]),
                               sub_case(c, [i]))
             ctx.tag("fix_to_float_" + ("ok" if "ok" in d else d["err"]))
+    if impl.get("input_modified"):
+        ctx.violation("array-input-modified", "%s %s changed the caller's input array: %s" % (
+            "array converter", describe(fmt), impl["input_modified"]), desc)
     if impl["np_to_float"] is not None:
         ctx.tag("np_fix_to_float")
         if impl.get("np_meta") is False:
@@ -841,6 +897,9 @@ def judge_narrow(ctx, c):
         # the scaled value is not a finite number of the input's own dtype: outside the narrowest reading of
         # the property ("whose scaled value is still a finite float"), so only compared with the model
         ctx.tag("narrow_rule_differs_scaled_value_overflows_dtype")
+    if impl.get("input_modified"):
+        ctx.violation("array-input-modified", "%s %s changed the caller's input array: %s" % (
+            "array converter", describe(fmt), impl["input_modified"]), desc)
     if impl.get("np_meta") is False:
         ctx.violation("array-shape-dtype", "NumpyFloatToFixConverter %s returned dtype %s / a different shape for a "
                       "%s array" % (describe(fmt), impl.get("np_dtype"), dtn), desc)
@@ -867,16 +926,246 @@ def judge_narrow(ctx, c):
     ctx.case(desc, sat and frc)
 
 
+# ---------------------------------------------------------------- sequences on ONE array object
+CONTAINERS = ["c64", "c64", "c2d", "f2d", "strided", "rev", "0d", "ro", "ro", "ro_f2d", "f32", "f16", "f32_ro", "list"]
+
+
+def gen_seq_fmt(rng, zero_frac):
+    bits = rng.choice(NP_BITS)
+    signed = rng.random() < 0.6
+    if zero_frac:
+        frac = 0
+    else:
+        r = rng.random()
+        frac = 0 if r < 0.25 else rng.randrange(1, bits + 1) if r < 0.8 else -rng.randrange(1, 6) if r < 0.9 \
+            else bits + rng.randrange(1, 6)
+    return {"signed": signed, "bits": bits, "frac": frac}
+
+
+def gen_seq_case(rng):
+    """2-4 array converters applied in a row to the SAME input object; after some of them 1-2
+    NumpyFixToFloatConverters applied in a row to the SAME result array"""
+    k = rng.choice([2, 2, 3, 3, 4])
+    fmts = [gen_seq_fmt(rng, zero_frac=(i == 0 and rng.random() < 0.7)) for i in range(k)]
+    r = rng.random()
+    if r < 0.45:
+        fmts.sort(key=lambda f: f["bits"] - f["frac"])       # narrow range first, wider afterwards
+    elif r < 0.55:
+        fmts.sort(key=lambda f: -(f["bits"] - f["frac"]))
+    cont = rng.choice(CONTAINERS)
+    prec = {"f32": "f32", "f32_ro": "f32", "f16": "f16"}.get(cont)
+    n = rng.choice([4, 6, 8, 12])
+    xs = []
+    for f in fmts:
+        xs += gen_values(rng, f, 3)
+    xs += [0.0, 0.75, -1.5, 300.0, -70000.0, 1e6, -3e9, 1e19, 127.0, 128.0, -129.0, 255.5, 65536.0]
+    rng.shuffle(xs)
+    if prec:
+        xs = [y for y in (to_narrow(x, prec) for x in xs) if y is not None]
+    xs = xs[:n] if len(xs) >= n else (xs * n)[:n]
+    steps = []
+    for f in fmts:
+        st = {"fmt": f, "to_float": []}
+        if rng.random() < 0.5:
+            st["to_float"] = [rng.choice([0, f["frac"], f["frac"], rng.randrange(-8, 40)])
+                              for _ in range(rng.choice([1, 2, 2]))]
+        steps.append(st)
+    return {"kind": "seq", "container": cont, "vs": [to_dy(x) for x in xs], "steps": steps}
+
+
+def make_container(np, xs, kind):
+    if kind == "list":
+        return list(xs)
+    dt = {"f32": np.float32, "f32_ro": np.float32, "f16": np.float16}.get(kind, np.float64)
+    a = np.array(xs, dtype=dt)
+    n = len(xs)
+    if kind == "c2d":
+        a = a.reshape(2, n // 2)
+    elif kind in ("f2d", "ro_f2d"):
+        a = np.asfortranarray(a.reshape(2, n // 2))
+    elif kind == "strided":
+        b = np.full(2 * n, 7.0e4, dtype=dt)
+        b[::2] = a
+        a = b[::2]
+    elif kind == "rev":
+        a = a[::-1]
+    elif kind == "0d":
+        a = np.array(xs[0], dtype=dt)
+    if kind in ("ro", "ro_f2d", "f32_ro"):
+        a.flags.writeable = False
+    return a
+
+
+def impl_seq(case):
+    """run the sequence on the real code; everything is compared with the ORIGINAL values"""
+    import numpy as np
+    from rig import type_casts as tc
+    xs = [from_dy(p) for p in case["vs"]]
+    out = {"steps": []}
+    with np.errstate(all="ignore"):
+        obj = make_container(np, xs, case["container"])
+        orig = [float(x) for x in np.asarray(obj, dtype=np.float64).reshape(-1).tolist()]
+        out["orig"] = [to_dy(x) for x in orig]
+        for st in case["steps"]:
+            fmt = st["fmt"]
+            s, b, f = fmt["signed"], fmt["bits"], fmt["frac"]
+            so = {"to_float": []}
+            out["steps"].append(so)
+            mk = call(tc.float_to_fp, s, b, f)
+            so["fp"] = []
+            for x in orig:
+                r = call(mk["ok"], x) if "ok" in mk else mk
+                so["fp"].append({"ok": int(r["ok"])} if "ok" in r else r)
+            mk = call(tc.NumpyFloatToFixConverter, s, b, f)
+            if "err" in mk:
+                so["np"] = [mk] * len(orig)
+                continue
+            r = call_keep(so, "NumpyFloatToFixConverter%s" % describe(fmt), mk["ok"], obj)
+            if "err" in r:
+                so["np"] = [r] * len(orig)
+                continue
+            res = np.asarray(r["ok"])
+            so["np_meta"] = bool(res.shape == np.shape(obj) and res.dtype == np.dtype(NP_DTYPE[(s, b)]))
+            so["np"] = [{"ok": int(v)} for v in res.reshape(-1).tolist()]
+            ks = [int(v) for v in res.reshape(-1).tolist()]
+            for nf in st["to_float"]:
+                sf = {"frac": nf, "ks": ks}
+                so["to_float"].append(sf)
+                g = call(tc.fp_to_float, nf)
+                sf["scalar"] = []
+                for kk in ks:
+                    q = call(g["ok"], kk) if "ok" in g else g
+                    sf["scalar"].append({"ok": canon_float(q["ok"])} if "ok" in q else q)
+                q = call_keep(sf, "NumpyFixToFloatConverter(%d)" % nf, tc.NumpyFixToFloatConverter(nf), res)
+                if "err" in q:
+                    sf["np"] = [q] * len(ks)
+                else:
+                    fl = np.asarray(q["ok"])
+                    sf["np_meta"] = bool(fl.shape == res.shape and fl.dtype == np.float64)
+                    sf["np"] = [{"ok": canon_float(v)} for v in fl.reshape(-1).tolist()]
+    return out
+
+
+def eval_seq(ctx, cases):
+    reqs, idx = [], []
+    var = ctx.extra.get("code_variant") or detect_variant(ctx)
+    rep = var.get("np") == "repaired"
+    for c in cases:
+        c["impl"] = impl = impl_seq(c)
+        vs = impl["orig"]
+        prec = {"f32": "f32", "f32_ro": "f32", "f16": "f16"}.get(c["container"])
+        for st, so in zip(c["steps"], impl["steps"]):
+            fmt = st["fmt"]
+            if prec and var.get("narrow") != "float64":
+                reqs.append(fmt_req(fmt, "np_float_to_fix_narrow", vs=vs, repaired=rep, prec=prec))
+            else:
+                reqs.append(fmt_req(fmt, "np_float_to_fix", vs=vs, repaired=rep))
+            idx.append((so, "m_np"))
+            sel = [i for i, r in enumerate(so["np"]) if "ok" in r]
+            so["sel"] = sel
+            reqs.append(fmt_req(fmt, "spec_fp", vs=[vs[i] for i in sel], rs=[so["np"][i]["ok"] for i in sel]))
+            idx.append((so, "o_np"))
+            for sf in so["to_float"]:
+                reqs.append({"suite": "c16", "op": "np_fix_to_float", "frac": sf["frac"], "ks": sf["ks"]})
+                idx.append((sf, "m_np"))
+    for (d, what), r in zip(idx, ctx.lean(reqs)):
+        d[what] = r
+    for c in cases:
+        judge_seq(ctx, c)
+
+
+def judge_seq(ctx, c):
+    impl = c["impl"]
+    vs = impl["orig"]
+    desc = {k: c[k] for k in ("kind", "container", "vs", "steps")}
+    prec = {"f32": "f32", "f32_ro": "f32", "f16": "f16"}.get(c["container"])
+    readonly = c["container"] in ("ro", "ro_f2d", "f32_ro")
+    ctx.traces += 1
+    done = [describe(st["fmt"]) for st in c["steps"]]
+    for n, (st, so) in enumerate(zip(c["steps"], impl["steps"])):
+        fmt = st["fmt"]
+        lo, hi = fmt_range(fmt)
+        where = "step %d of the sequence %s on one %s object" % (n + 1, " -> ".join(done), c["container"])
+        if so.get("input_modified"):
+            ctx.violation("array-input-modified", "%s: the caller's input was changed: %s" % (
+                where, so["input_modified"]), desc)
+        for i, (a, m) in enumerate(zip(so["np"], so["m_np"])):
+            if m.get("ok") == "unspecified":
+                continue
+            if a != m:
+                if "err" in a and "ok" in m:
+                    ctx.violation("array-readonly-rejected" if readonly else "exception-in-domain",
+                                  "%s: NumpyFloatToFixConverter %s raised %s; the rule gives %r for %r" % (
+                                      where, describe(fmt), a["err"], m["ok"], from_dy(vs[i])), desc)
+                ctx.mismatch("c16.np_seq", "%s %s value=%r impl=%r model=%r" % (where, describe(fmt), vs[i], a, m), desc)
+                break
+        for j, ok in enumerate(so["o_np"]):
+            i = so["sel"][j]
+            if ok or (prec and not finite_in_dtype(vs[i], fmt["frac"], prec)):
+                continue
+            ctx.violation("array-ne-scalar-sequence",
+                          "%s: NumpyFloatToFixConverter %s gives %r for the element whose original value is %r; the "
+                          "conversion rule (and float_to_fp on the original value) gives %r" % (
+                              where, describe(fmt), so["np"][i]["ok"], from_dy(vs[i]),
+                              so["fp"][i].get("ok", so["fp"][i])), desc)
+            break
+        if so.get("np_meta") is False:
+            ctx.violation("array-shape-dtype", "%s: NumpyFloatToFixConverter %s changed shape / dtype" % (
+                where, describe(fmt)), desc)
+        for sf in so["to_float"]:
+            ctx.tag("seq_to_float")
+            if sf.get("input_modified"):
+                ctx.violation("array-input-modified", "%s, then %s" % (where, sf["input_modified"]), desc)
+            if sf.get("np_meta") is False:
+                ctx.violation("array-shape-dtype", "%s: NumpyFixToFloatConverter(%d) changed shape / dtype" % (
+                    where, sf["frac"]), desc)
+            for i, (a, m, sc) in enumerate(zip(sf["np"], sf["m_np"], sf["scalar"])):
+                m = canon_model_float(m)
+                if m.get("err") != "domain" and a != m:
+                    ctx.mismatch("c16.np_fix_to_float_seq", "%s frac=%d k=%d impl=%r model=%r" % (
+                        where, sf["frac"], sf["ks"][i], a, m), desc)
+                    break
+                if "ok" in a and "ok" in sc and a != sc:
+                    ctx.violation("array-ne-scalar-sequence",
+                                  "%s, then NumpyFixToFloatConverter(%d): element %d -> %r but fp_to_float gives %r" % (
+                                      where, sf["frac"], sf["ks"][i], a["ok"], sc["ok"]), desc)
+                    break
+                if "err" in a and "ok" in sc:
+                    ctx.violation("exception-in-domain", "%s, then NumpyFixToFloatConverter(%d) raised %s" % (
+                        where, sf["frac"], a["err"]), desc)
+                    break
+    # distribution: can an earlier step's saturation be seen by a later step?
+    def sat(fmt, p):
+        lo, hi = fmt_range(fmt)
+        q = frac_of(p) * Fraction(2) ** fmt["frac"]
+        return q >= hi + 1 or q <= lo - 1
+    nontrivial = False
+    for i in range(len(c["steps"])):
+        for j in range(i + 1, len(c["steps"])):
+            if any(sat(c["steps"][i]["fmt"], p) and not sat(c["steps"][j]["fmt"], p) for p in vs):
+                nontrivial = True
+    ctx.tag("seq_" + c["container"])
+    ctx.tag("seq_len_%d" % len(c["steps"]))
+    if any(st["fmt"]["frac"] == 0 for st in c["steps"][:-1]):
+        ctx.tag("seq_zero_frac_before_last")
+    if nontrivial:
+        ctx.tag("seq_earlier_saturation_visible_later")
+    ctx.case(desc, nontrivial)
+
+
 def eval_cases(ctx, cases):
     conv = [c for c in cases if c["kind"] == "conv"]
     inv = [c for c in cases if c["kind"] == "inv"]
     narrow = [c for c in cases if c["kind"] == "narrow"]
+    seqs = [c for c in cases if c["kind"] == "seq"]
     for i in range(0, len(conv), 1500):
         eval_conv(ctx, conv[i:i + 1500])
     for i in range(0, len(inv), 1500):
         eval_inv(ctx, inv[i:i + 1500])
     for i in range(0, len(narrow), 1500):
         eval_narrow(ctx, narrow[i:i + 1500])
+    for i in range(0, len(seqs), 1500):
+        eval_seq(ctx, seqs[i:i + 1500])
 
 
 FIXED = [
@@ -892,6 +1181,18 @@ FIXED = [
     {"kind": "inv", "fmt": {"signed": False, "bits": 64, "frac": 7}, "shape": 0,
      "ks": [2 ** 64 - 1, 2 ** 64 - 2048, 2 ** 53 + 1, 12345678901234567]},
     # float16 / float32 input arrays: the scale 2.0**n_frac is not a finite value of the input's dtype
+    # one array object converted to several formats in a row (narrow integer format first), and read-only input
+    {"kind": "seq", "container": "c64",
+     "vs": [to_dy(x) for x in (-70000.0, -300.0, -128.0, -1.5, 0.0, 0.75, 1.5, 127.0, 300.0, 70000.0)],
+     "steps": [{"fmt": {"signed": True, "bits": 8, "frac": 0}, "to_float": [0, 4]},
+               {"fmt": {"signed": True, "bits": 16, "frac": 0}, "to_float": []},
+               {"fmt": {"signed": True, "bits": 32, "frac": 0}, "to_float": [3]},
+               {"fmt": {"signed": True, "bits": 16, "frac": 4}, "to_float": [4]}]},
+    {"kind": "seq", "container": "ro_f2d",
+     "vs": [to_dy(x) for x in (-3.0, 0.0, 200.0, 255.0, 256.0, 1.0e6)],
+     "steps": [{"fmt": {"signed": False, "bits": 8, "frac": 0}, "to_float": []},
+               {"fmt": {"signed": False, "bits": 16, "frac": 0}, "to_float": [0]},
+               {"fmt": {"signed": False, "bits": 32, "frac": 3}, "to_float": [3, 0]}]},
     {"kind": "narrow", "prec": "f16", "fmt": {"signed": True, "bits": 32, "frac": 16}, "shape": 0,
      "vs": [to_dy(x) for x in (0.5, 0.0, -0.25, 1.0, 100.0, 0.333251953125, 65504.0)]},
     {"kind": "narrow", "prec": "f32", "fmt": {"signed": True, "bits": 32, "frac": 128}, "shape": 1,
@@ -918,14 +1219,17 @@ def run(ctx):
     n_conv = ctx.scale(2500, 62000)
     n_inv = ctx.scale(700, 8000)
     n_narrow = ctx.scale(800, 12000)
+    n_seq = ctx.scale(700, 10000)
     if ctx.extended:
         n_conv *= 4
         n_inv *= 4
         n_narrow *= 4
+        n_seq *= 4
     cases = [dict(c) for c in FIXED]
     cases += [gen_conv_case(rng) for _ in range(n_conv)]
     cases += [gen_inv_case(rng) for _ in range(n_inv)]
     cases += [gen_narrow_case(rng) for _ in range(n_narrow)]
+    cases += [gen_seq_case(rng) for _ in range(n_seq)]
     if not ctx.quick or ctx.extended:
         # all boundary neighbourhoods of every (signed, bits, frac)
         for signed in (True, False):
@@ -933,7 +1237,7 @@ def run(ctx):
                 for frac in range(-3, bits + 4):
                     cases.append(boundary_case({"signed": signed, "bits": bits, "frac": frac}))
     eval_cases(ctx, cases)
-    ctx.extra["values_converted"] = sum(len(c.get("vs", c.get("ks", []))) for c in cases)
+    ctx.extra["values_converted"] = sum(len(c.get("vs", c.get("ks", []))) * len(c.get("steps", [0])) for c in cases)
 
 
 def replay(ctx, payload):
